@@ -25,7 +25,7 @@ func init() {
 		Assumptions: []string{"generated protobuf getters are nil-safe", "stream.Send of a typed-nil response is an (empty) reply, not a panic"},
 		Tech:        "static analysis: path counting between Recv and Send, guarded-by-condition, field typestate nil-guard on SSA (server/go)",
 		NeedU2:      true,
-		Rules:       []func(*Ctx){ruleC19OneReply, ruleC19ProtocolState, ruleC19SessionNil, ruleC19NilSafeDecoding, ruleC19CloseOnExit, nilContradictionRule("C19", true, "github.com/godaddy/asherah/server/go")},
+		Rules:       []func(*Ctx){ruleC19OneReply, ruleC19ProtocolState, ruleC19SessionNil, ruleC19NilSafeDecoding, ruleC19CloseOnExit, ruleC19PartitionVerbatim, nilContradictionRule("C19", true, "github.com/godaddy/asherah/server/go")},
 	})
 }
 
@@ -386,4 +386,96 @@ func ruleC19CloseOnExit(c *Ctx) {
 		})
 	}
 	c.check(good, shortName(f)+"/deferred-close", u.pos(f.Pos()), "defer func(){ if s.handler != nil { s.handler.Close() } }()", why)
+	// exactly once: the deferred close is the only close — no other call in Stream (directly or through a helper of this
+	// package) closes the handler as well (a second Close gives away a reference of another stream's shared session)
+	closes := func(g *ssa.Function) bool {
+		hit := false
+		if g == nil || g.Blocks == nil {
+			return false
+		}
+		for _, h := range withAnon(g) {
+			allInstrs(h, func(j ssa.Instruction) {
+				if isHandlerInvoke(j, "Close") {
+					hit = true
+				}
+			})
+		}
+		return hit
+	}
+	extra := ""
+	for _, g := range withAnon(f) {
+		allInstrs(g, func(j ssa.Instruction) {
+			if _, isDefer := j.(*ssa.Defer); isDefer && g == f {
+				return
+			}
+			if g != f {
+				return // the deferred closure itself
+			}
+			if isHandlerInvoke(j, "Close") {
+				extra = u.ipos(j)
+			}
+			if _, isCall := j.(*ssa.Call); isCall {
+				if h := staticCallee(j); h != nil && h.Pkg != nil && h.Pkg.Pkg.Path() == pkgServer && closes(h) {
+					extra = u.ipos(j)
+				}
+			}
+		})
+	}
+	c.check(extra == "", shortName(f)+"/close-exactly-once", u.pos(f.Pos()), "the deferred close is the only close of the handler", "the handler is also closed at "+extra+" although the deferred close runs on every exit: the session is closed twice — with the SDK's session cache the second Close releases a reference that belongs to another stream sharing the session, which is then torn down under it")
+}
+
+// ruleC19PartitionVerbatim: the partition id of the get-session request reaches SessionFactory.GetSession unmodified.
+func ruleC19PartitionVerbatim(c *Ctx) {
+	u := c.U2
+	c.rule("C19.partition-verbatim", "the partition id handed to SessionFactory.GetSession is the request's GetPartitionId() value itself (directly, or through a field that is assigned exactly that value): the sidecar addresses the same partition as the SDK would for that id", 1)
+	n := 0
+	raw := func(v ssa.Value) bool {
+		cv, ok := resolve(v).(*ssa.Call)
+		if !ok {
+			return false
+		}
+		g := staticCallee(cv)
+		return g != nil && g.Name() == "GetPartitionId"
+	}
+	for _, f := range u.RepoFuncs {
+		if f.Pkg == nil || f.Pkg.Pkg.Path() != pkgServer || f.Blocks == nil {
+			continue
+		}
+		allInstrs(f, func(i ssa.Instruction) {
+			cc := callOf(i)
+			if cc == nil || !cc.IsInvoke() || cc.Method.Name() != "GetSession" || len(cc.Args) != 1 || cc.Args[0].Type().String() != "string" {
+				return
+			}
+			n++
+			c.FuncsAnalysed[shortName(f)] = true
+			arg := cc.Args[0]
+			ok := raw(arg)
+			if !ok {
+				// a field load: every store to that field in this package stores the raw id
+				if _, fld, isF := fieldAccess(resolve(arg)); isF {
+					stores, good := 0, 0
+					for _, g := range u.RepoFuncs {
+						if g.Pkg == nil || g.Pkg.Pkg.Path() != pkgServer {
+							continue
+						}
+						allInstrs(g, func(j ssa.Instruction) {
+							if st, isS := j.(*ssa.Store); isS {
+								if _, f2, isF2 := fieldAccess(st.Addr); isF2 && f2 == fld && st.Val.Type().String() == "string" {
+									stores++
+									if raw(st.Val) {
+										good++
+									}
+								}
+							}
+						})
+					}
+					ok = stores > 0 && stores == good
+				}
+			}
+			c.check(ok, trimPkgDirs(shortName(f))+"/GetSession(id)", u.ipos(i), "id = request.GetPartitionId()", "the partition id is transformed before it reaches the SDK (trimmed, case-folded, …): the sidecar then serves another partition than the one requested — foreign records decrypt, and the SDK cannot read what the sidecar wrote for that id")
+		})
+	}
+	if n == 0 {
+		c.bad("server/GetSession-calls", "", "no SessionFactory.GetSession(id) call found in the sidecar")
+	}
 }
